@@ -1,6 +1,6 @@
 (** C01 — Tokens partition the input text. *)
 From Vib Require Import Model.Base Model.Lattice Model.Tokenizer Proofs.Viterbi Proofs.TokenizerProofs
-  Proofs.CountProofs Proofs.ScanInd Proofs.PartitionProofs.
+  Proofs.CountProofs Proofs.ScanInd Proofs.PartitionProofs Proofs.TotalProofs.
 From Coq Require Import Sorted.
 
 (** Whenever tokenization completes, the tokens (reading order) form a [tok_seq]: every token
@@ -38,8 +38,16 @@ Proof. exact tokenize_fresh_fuel. Qed.
 Theorem c01_empty : forall d o, exists L eos, tokenize_fresh d o [] = Done ([], L, eos).
 Proof. exact tokenize_fresh_empty. Qed.
 
-(** Partial: "never panics" is NOT proved for all accepted dictionaries, and is false of the
-    pinned code (known finding K1): a dictionary whose char.def names a category without
+(** Tokenization never panics and never runs out of fuel, for every dictionary, option setting and
+    sentence satisfying [wf]: every character's primary category has an unk.def entry (the clause
+    the builder does not establish: known finding K1) and costs are bounded by some [B] with
+    [2 * B * (length + 1)] inside i32 (the 32-bit restriction; it holds for every sentence of up
+    to 16383 characters when all costs fit 16 bits). *)
+Theorem c01_total : forall d B o cs, wf d B cs -> exists ts L eos, tokenize_fresh d o cs = Done (ts, L, eos).
+Proof. exact tokenize_total. Qed.
+
+(** Without the coverage clause the statement is false of the pinned code (known finding K1):
+    a dictionary whose char.def names a category without
     unk.def rows is accepted and panics.  Witness, evaluated in the model: *)
 Definition k1_ci : cinfo := {| ci_cates := 1; ci_base := 0; ci_invoke := false; ci_group := false; ci_length := 1 |}.
 Definition k1_dict : dict :=
@@ -60,6 +68,19 @@ Example c01_example : exists ts L eos,
   tokenize_fresh ex_dict {| o_space := None; o_mgl := None |} [97; 98]%N = Done (ts, L, eos) /\ length ts = 2%nat.
 Proof. eexists; eexists; eexists. split; vm_compute; reflexivity. Qed.
 
+(** Non-vacuity of [c01_total]: the dictionary above is well-formed for "ab" with B = 100. *)
+Example c01_wf_example : wf ex_dict 100 [97; 98]%N.
+Proof.
+  constructor.
+  - lia.
+  - intros r l. unfold conn_of, ex_dict; cbn [d_conn]. destruct (N.to_nat r) as [|[|?]]; destruct (N.to_nat l) as [|[|?]]; cbn; lia.
+  - intros r [<-|[]]. cbn. lia.
+  - intros u r H. discriminate.
+  - intros u [<-|[]]. cbn. lia.
+  - intros c _. eexists. split; [now left|]. reflexivity.
+  - cbn. unfold MAXI32. lia.
+Qed.
+
 Check c01_partition.
 Print Assumptions c01_partition.
 Print Assumptions c01_ordered.
@@ -68,3 +89,4 @@ Print Assumptions c01_byte_offsets.
 Print Assumptions c01_terminates.
 Print Assumptions c01_empty.
 Print Assumptions c01_no_panic_refuted.
+Print Assumptions c01_total.
